@@ -11,6 +11,30 @@ CHECKS = {
    text="TLC enumerates every block tree, confirmation order, duplicate / invalid submission and truncation within the constants of spec/Ledger.tla (quick: 6 blocks, thorough: 7 blocks = 6.0M distinct states) against the main-chain invariants; TLC-generated behaviours are replayed on the real ledger and the recorded answers of every query the property names are validated step by step against the same actions (Trace_Ledger.tla).",
    note="Trusted: TLC/SANY, the in-memory kv engine replacing goleveldb, the ledger driver's projection (abstract ids = arrival order). Small-scope: trees of <= 8..14 blocks, 3 tx ids. Generator precondition: a tx occurs at most once on a root-to-leaf path.",
    technique="TLA+ spec + TLC exhaustive MC; TLC-generated behaviours replayed on real code; TLC trace validation"),
+ "C01": dict(level=MC, design="7/C01",
+   text="TLC model-checks spec/XState.tla (block trees x submit / peer block / play / mine / walk / restart orders over a 15-transaction catalogue; invariant PureFn: state minus pool effects = what a fresh node obtains by replaying the pointer's chain, with do / undo written as the code writes them) exhaustively within small constants; TLC-simulated behaviours are replayed on the real ledger + state machine with real signed transactions and every observable (balances, raw UTXO table, total, key values / versions, pool, pointer, snapshots) is validated after every step against the same actions (Trace_XState.tla).",
+   note="Trusted: TLC, in-memory kv engine, the xstate driver's concretiser / projector, the harness's $vprog kernel contract for key writes. Small scope: <= 5 blocks exhaustively, 7-9 blocks and 18-26 operations in simulation. Known deviation KF_PoolMasksBlockOrder (PlayAndRepost validates against pool-affected storage) is accepted as listed in KNOWN_FINDINGS.txt; the rest of such a behaviour is not judged.",
+   technique="TLA+ spec + TLC exhaustive MC; TLC-generated behaviours replayed on real code; TLC trace validation"),
+ "C02": dict(level=MC, design="7/C02",
+   text="Invariant Conservation of XState.tla (sum of unspent outputs + pending fee outputs = total = genesis + awards of applied blocks) model-checked; generated behaviours replayed on the real state machine in three amount concretisations (x1, x(2^70+3), the latter also with leading-zero output encodings); GetTotal, GetBalance of every address and the raw UTXO table scan validated after every step.",
+   note="math/big is trusted; spec amounts are small integers (scale invariance is exercised by the concretisation variants, not proved). Known deviation KF_PoolMasksBlockOrder as for C01.",
+   technique="TLA+ spec + TLC exhaustive MC; TLC-generated behaviours replayed on real code in 3 amount encodings; TLC trace validation"),
+ "C03": dict(level=MC, design="7/C03",
+   text="Submit of XState.tla admits exactly when every token input is unspent / unfrozen and every read key is at the cited version; Play undoes conflicting pool members with descendants as processUnconfirmTxs does; invariants NoDoubleSpend / PoolValid over main chain + pool model-checked; conflict-biased behaviours replayed on the real code, accept / refuse classes and pool validated after every step.",
+   note="Refusal classes by sentinel errors (stale vs other). Known deviation KF_PoolMasksBlockOrder as for C01.",
+   technique="TLA+ spec + TLC exhaustive MC; TLC-generated behaviours replayed on real code; TLC trace validation"),
+ "C05": dict(level=MC, design="7/C05",
+   text="Every refusing disjunct of Ledger.tla / XState.tla leaves the observable state unchanged (model-checked); behaviours interleaving valid operations with failing ones are replayed on the real code and after EVERY step (a) the live answers are validated against the specification and (b) a second Ledger / State pair opened on a copy of the data must answer every query identically; the behaviour continues so that poisoned caches surface later.",
+   note="Granularity of a failed Walk per DESIGN R6. Storage write faults are exercised through C06's cut points. Deviations concerning acceptance of invalid peer blocks are outside this property (enabled silently).",
+   technique="TLA+ specs + TLC MC; generated failing/valid histories replayed on real code with live-vs-reopened differential; TLC trace validation"),
+ "C17": dict(level=MC, design="7/C17",
+   text="XState.tla with window w > 0: IrrDef (irr = max(0, max applied height - w)), IrrMonotone, IrrKept (no non-pruning walk drops a chain block at or below irr) model-checked for w = 1, 2; behaviours with w = 0..3, walks trying to cross the irreversible height, pruning walks and restarts replayed on the real state machine; GetMeta's irreversible height, walk results and pointer validated after every step.",
+   note="Window is fixed by genesis (changing it through governance proposals is not exercised).",
+   technique="TLA+ spec + TLC exhaustive MC; TLC-generated behaviours replayed on real code; TLC trace validation"),
+ "C18": dict(level=MC, design="7/C18",
+   text="SnapGet in XState.tla transcribes xModSnapshot.Get (version chain walk skipping unconfirmed writers); invariant SnapshotOK (snapshot at every chain block = what replaying to that block leaves) model-checked over key create / overwrite / delete / re-create / delete-of-missing histories with pending writes and reorganisations; on the real code CreateSnapshot(B).Get for every block B of the pointer's chain and every key is validated after every step.",
+   note="Snapshots are specified only while the state machine is on the ledger's main chain. Two keys, one bucket.",
+   technique="TLA+ spec + TLC exhaustive MC; TLC-generated behaviours replayed on real code; TLC trace validation"),
 }
 NA = {}
 
